@@ -132,8 +132,8 @@ func (x *runner) runKeyset(sc scenario) {
 	}
 	wsc := scenario{P: seg, T: wk.Tag, Off: 1 + wk.KeySize + 7, Hdr: []int{1, wk.KeySize, 7}}
 	var (
-		r   io.Reader
-		src *source
+		r    io.Reader
+		src  *source
 		got  int
 		post bool
 	)
